@@ -237,6 +237,7 @@ def _sweep_ac13(rng, reps):
 
 class C06(Prop):
     id = "C06"; module = "Adsb.Theorems.C06"; design_ref = "5/C06"
+    modules = ["Adsb.Theorems.C06", "Adsb.Theorems.C06b"]
     deps = ["layout:struct Altitude", "layout:struct AC13Field", "shape:Altitude::read", "shape:AC13Field::read", "shape:decode_id13_field", "shape:mode_a_to_mode_c"]
     rule = ("exhaustive: all 8192 13-bit codes x {DF0,4,16,20} and all 4096 12-bit codes x 13 type codes x {DF17,DF18}, surrounding bits random "
             "(reps per code); non-trivial = codes with an altitude")
@@ -316,6 +317,7 @@ class C08(Prop):
 
 class C09(Prop):
     id = "C09"; module = "Adsb.Theorems.C09"; design_ref = "5/C09"
+    modules = ["Adsb.Theorems.C09", "Adsb.Theorems.C06b"]
     deps = ["layout:struct IdentityCode", "shape:IdentityCode::read", "shape:decode_id13_field", "layout:struct AircraftStatus",
             "layout:enum AircraftStatusType", "layout:enum EmergencyState"]
     rule = "exhaustive: all 8192 identity codes x {DF5, DF21, DF17/18 type 28}; all 64 subtype/emergency combinations; surrounding bits random"
@@ -1082,6 +1084,7 @@ class C19(Prop):
 
 class C01(Prop):
     id = "C01"; module = "Adsb.Theorems.C01"; design_ref = "5/C01"
+    modules = ["Adsb.Theorems.C01", "Adsb.Theorems.C06b"]
     # the inventory of unwrap / expect / panic-family macros / indexing / narrowing casts in the two library crates, and - because the
     # totality theorems are about the model of the *whole* decoder - every layout item and every modelled function body
     deps = ["panic:", "layout:", "shape:"]
